@@ -862,7 +862,8 @@ class BackendZ3(Backend):
         if track:
             already_tracked = {str(impl.children()[0]) for impl in s.assertions()}
             for constraint in c:
-                name = str(hash(constraint))
+                # hash(constraint) is Z3_get_ast_hash: different constraints share it, and the second one was then never asserted
+                name = str(self._z3_ast_hash(constraint.ast))
                 if name not in already_tracked:
                     s.assert_and_track(constraint, name)
                     already_tracked.add(name)
